@@ -218,7 +218,7 @@ def obs_code(spec, mod):
     ref = "(&**a)" if spec["unsized"] else "a"
     refb = "(&**b)" if spec["unsized"] else "b"
     if "Debug" in tr:
-        out.append(f'for (i, a) in vals.iter().enumerate() {{ ::dxrt::ev!("dbg", "m" => "{mod}", "i" => i, "s" => format!("{{:?}}", {ref}), "p" => format!("{{:#?}}", {ref})); }}')
+        out.append(f'for (i, a) in vals.iter().enumerate() {{ ::dxrt::ev!("dbg", "m" => "{mod}", "i" => i, "s" => format!("{{:?}}", {ref}), "p" => format!("{{:#?}}", {ref}), "x" => format!("{{:#x?}}", {ref}), "w" => format!("{{:>+7.2?}}", {ref})); }}')
     if "Clone" in tr and "Debug" in tr:
         out.append(f'for (i, a) in vals.iter().enumerate() {{ let c = ::core::clone::Clone::clone(a); let mut d = ::core::clone::Clone::clone(&vals[0]); ::core::clone::Clone::clone_from(&mut d, a); ::dxrt::ev!("clone", "m" => "{mod}", "i" => i, "s" => format!("{{:?}}", c), "cf" => format!("{{:?}}", d)); }}')
     elif "Clone" in tr:
@@ -235,6 +235,15 @@ def obs_code(spec, mod):
         out.append(f'{{ let mut s = ::std::string::String::new(); for a in &vals {{ for b in &vals {{ s.push(::dxrt::ord_c(::core::cmp::Ord::cmp({ref}, {refb}))); }} }} ::dxrt::ev!("mat", "m" => "{mod}", "op" => "cmp", "v" => s); }}')
     if "Hash" in tr:
         out.append(f'{{ let mut l = ::std::vec::Vec::new(); for a in &vals {{ l.push(::dxrt::RecHasher::of({ref})); }} ::dxrt::ev!("feeds", "m" => "{mod}", "l" => l); }}')
+    if "T" in spec["gen"] and spec["gen"] != "U":
+        # to which instantiations does each impl apply?  T := a float (no Eq / Ord / Hash), T := a PartialEq-only Copy type
+        paths = {"Clone": "::core::clone::Clone", "Debug": "::core::fmt::Debug", "Default": "::core::default::Default",
+                 "PartialEq": "::core::cmp::PartialEq", "Eq": "::core::cmp::Eq", "PartialOrd": "::core::cmp::PartialOrd",
+                 "Ord": "::core::cmp::Ord", "Hash": "::core::hash::Hash"}
+        for k, targ in enumerate(("f32", "::dxrt::P")):
+            gi2 = gi.replace("u8", targ, 1) if "'static" not in gi else gi.replace("'static, u8", f"'static, {targ}", 1)
+            bits = " ".join(f"s.push(::dxrt::bool_c(::dxrt::probe_impl!({mod}::{tn}{gi2}: {paths[t]})));" for t in tr)
+            out.append(f'{{ let mut s = ::std::string::String::new(); {bits} ::dxrt::ev!("appl", "m" => "{mod}", "i" => {k}, "v" => s); }}')
     return "{\n" + "\n".join(out) + "\n}"
 
 
@@ -272,6 +281,8 @@ def check_case(spec, events):
                 bad.append(("debug-compact", es["s"], ed["s"]))
             elif ed["p"] != es["p"]:
                 bad.append(("debug-pretty", es["p"], ed["p"]))
+            elif ed.get("x") != es.get("x") or ed.get("w") != es.get("w"):
+                bad.append(("debug-flags", (es.get("x"), es.get("w")), (ed.get("x"), ed.get("w"))))
         elif k == "clone":
             if ed["s"] != es["s"] or ed["cf"] != es["cf"]:
                 bad.append(("clone", (es["s"], es["cf"]), (ed["s"], ed["cf"])))
@@ -281,6 +292,9 @@ def check_case(spec, events):
         elif k == "mat":
             if ed["v"] != es["v"]:
                 bad.append((f"matrix-{key[2]}", es["v"], ed["v"]))
+        elif k == "appl":
+            if ed["v"] != es["v"]:
+                bad.append(("impl-applies-to-other-instantiations", es["v"], ed["v"]))
         elif k == "feeds":
             # Hash only has to stay consistent with ==
             eq = by["dx"].get(("mat", None, "eq"))
